@@ -350,7 +350,7 @@ def build_trees(
                 trees[i] = AngularTree(coords, weights=weights, leafsize=leafsize)
 
         # fill in dummy trees for bins that contain no data
-        empty_tree = AngularTree.empty(has_weights=weights is not None)
+        empty_tree = AngularTree.empty(has_weights=patch.has_weights)
         trees = tuple(trees.get(i + 1, empty_tree) for i in range(len(binning)))
 
     return trees
